@@ -139,7 +139,20 @@ AsRes(keys, S) ==      \* the result that lists the positions of S in ascending 
 
 (* all k-nearest index sets: everything strictly below the k-th key, plus any
    completion from the points tied at the k-th key *)
-KthKey(keys, k) == SortAsc(keys)[k]
+(* the k-th smallest key, without sorting (O(k n); SortAsc is quadratic with a large constant
+   under TLC): walk up the distinct key values until k positions are covered.  KnnPredMC checks
+   NearSets, which is built on it, against the sorted formulation IsKnnDecl. *)
+CountLeq(keys, t) == Cardinality({ i \in 1..Len(keys) : keys[i] <= t })
+RECURSIVE MinAboveUpTo(_, _, _)
+MinAboveUpTo(keys, lo, j) ==      \* least key > lo among the first j positions; -1 if none (linear)
+    IF j = 0 THEN -1
+    ELSE LET m == MinAboveUpTo(keys, lo, j - 1)
+         IN  IF keys[j] > lo /\ (m = -1 \/ keys[j] < m) THEN keys[j] ELSE m
+MinAbove(keys, lo) == MinAboveUpTo(keys, lo, Len(keys))
+RECURSIVE KthFrom(_, _, _)
+KthFrom(keys, k, lo) == LET t == MinAbove(keys, lo)
+                        IN  IF CountLeq(keys, t) >= k THEN t ELSE KthFrom(keys, k, t)
+KthKey(keys, k) == KthFrom(keys, k, -1)
 NearSets(keys, k) ==
     LET t    == KthKey(keys, k)
         must == { i \in 1..Len(keys) : keys[i] < t }
